@@ -587,6 +587,10 @@ fn run_answer(a: &Answer) -> Outcome {
             Ok(mut client) => {
                 if named.is_empty() {
                     Outcome::violation("C11:client-accepts-unsupported-answer", format!("answer {shown} names no supported version but connect succeeded"))
+                } else if a.lines.len() == 1 && all.len() > 1 {
+                    // one header line listing several elements is not "a version": there is no
+                    // single version both ends could be said to speak
+                    Outcome::violation("C11:client-accepts-answer-list", format!("answer {shown} is a list of several sub-protocols, not the name of one version, but connect succeeded"))
                 } else {
                     // which version does the client speak?
                     let mut ok_status = false;
@@ -640,7 +644,7 @@ fn run_answer(a: &Answer) -> Outcome {
 
 pub fn run(ctx: &Ctx) {
     ctx.rule("server: upgrade requests to /relay of a real relay over loopback with 0/1/2 Sec-WebSocket-Protocol lines of 1..6 elements from {iroh-relay-v1, -v2, -v3, 'iroh-relay-v', upper-case, 'v2', empty, other token, 14 near misses incl. non-ASCII}, each padded with SP/HTAB; all 585 unpadded lists of length <=3 over the 8-token alphabet plus the missing header are enumerated; a second server part completes the relay handshake by hand and provokes a version-specific frame (Health=v1 / Status=v2) to see which version the relay speaks; client: the real ClientBuilder::connect against a fake relay answering 101 with 0/1/2 generated protocol lines, then one v2-only and one v1-only frame; non-trivial = offer mixing supported and unsupported elements / answer that names no supported version (rejected) or an accepted answer whose spoken version was observed");
-    ctx.assume("offer elements are separated by ',' and trimmed of SP/HTAB (RFC 9110 lists); a refusal of a non-ASCII header value is tolerated (the statement only says 'upgrades only if'); for repeated header lines both 'first line' and 'all lines combined' (RFC 6455) are accepted readings; a server answer that lists several versions or comes in several lines is ambiguous: the client may reject it, but if it accepts it must speak one of the named versions");
+    ctx.assume("offer elements are separated by ',' and trimmed of SP/HTAB (RFC 9110 lists); a refusal of a non-ASCII header value is tolerated (the statement only says 'upgrades only if'); for repeated header lines both 'first line' and 'all lines combined' (RFC 6455) are accepted readings; a server answer that comes in several header lines is ambiguous (the client may reject it, but if it accepts it must speak one of the named versions); a single header line listing several elements does not name a version and must be rejected");
     if wsutil::accept_key(WS_KEY.as_bytes()) != WS_ACCEPT {
         eprintln!("INCONCLUSIVE: harness SHA-1 self-test failed");
         std::process::exit(2);
